@@ -209,9 +209,9 @@ NamedConfigs == <<
              Set("vtt_writer", "cue_id", "false", VBool(FALSE), "valid"), Set("scc_reader", "text_align", "\"center\"", VStr("center", {}), "valid") >>
 >>
 NCat == Len(CatSeq)
-Configs == [i \in 1..(NCat + Len(NamedConfigs)) |->
+Configs == TLCEval([i \in 1..(NCat + Len(NamedConfigs)) |->
               IF i <= NCat THEN (IF NeedsFps(CatSeq[i]) THEN <<CatSeq[i], Fps25>> ELSE <<CatSeq[i]>>)
-              ELSE NamedConfigs[i - NCat]]
+              ELSE NamedConfigs[i - NCat]])
 Named(k) == NCat + k
 
 \* a configuration file takes precedence over an inline configuration
@@ -313,7 +313,7 @@ HistJobs ==
     Job("convert", "ttml", "-", ".ttml", "-", ".vtt", 0, Named(8), <<"stampa">>) }
 
 SingleJobs == {j \in DispatchJobs : Meaningful(j) /\ Reduced(j)} \cup ConfigJobs \cup OtherJobs
-AllJobs == SingleJobs \cup HistJobs
+AllJobs == TLCEval(SingleJobs \cup HistJobs)        \* TLCEval: enumerate once, not at every membership test
 JobSeq == SX!SetToSeq(AllJobs)
 
 -----------------------------------------------------------------------------
